@@ -842,3 +842,23 @@ def pyramid_delegation_rules(ck, P, rule="R-BOX"):
             ok = cnt <= {1} and 1 in cnt and arg_ok and not esc
             why = "intersections per level %s, operand from the same level of the argument: %s" % (sorted(cnt), arg_ok)
         ck.check(ok, rule, b["q"], "%s intersects every level's box with the argument's box of the same level" % nm, "%s does not intersect level by level (%s)" % (nm, why), ir.loc(b))
+    # TileBBox::intersect_pyramid(p) = self.intersect_bbox(p.get_level_bbox(self.level)), on every path: a level the pyramid does not hold
+    # is an EMPTY box there, so the result is empty — "no box found, leave the request as it is" lets a removed level through
+    ip = [b for b in P.bodies if b["q"].endswith("tile_bbox::TileBBox::intersect_pyramid")]
+    if ck.anchor(rule, "TileBBox::intersect_pyramid", ip, 1):
+        b = ip[0]
+        p0 = param(b)
+        is_ib = lambda y: y.get("k") == "mcall" and (ir.callee(y) or "").endswith("TileBBox::intersect_bbox") and ir.place_str(y["recv"]) == "self"
+        cnt = mvt.exit_counts(P, b, lambda y: 1 if is_ib(y) else None)
+        calls = [y for y in ir.walk_nodes(b["body"]) if is_ib(y)]
+        arg_ok = False
+        if len(calls) == 1 and p0:
+            lets_ = {y["pat"]["hid"]: y["init"] for y in ir.walk_nodes(b["body"]) if y.get("k") == "let" and "init" in y and y["pat"].get("k") == "bind"}
+            a = calls[0]["a"][0]
+            if ir.local_hid(a) in lets_:
+                a = lets_[ir.local_hid(a)]
+            g = [z for z in ir.walk_nodes(a) if z.get("k") == "mcall" and (ir.callee(z) or "").endswith("TileBBoxPyramid::get_level_bbox")]
+            arg_ok = len(g) == 1 and ir.local_hid(g[0]["recv"]) == p0["hid"] and ir.place_str(g[0]["a"][0]) == "self.level"
+        ck.check(cnt == {1} and arg_ok, rule, b["q"], "intersect_pyramid(p) = self.intersect_bbox(p.get_level_bbox(self.level)) on every path",
+                 "intersect_pyramid does not intersect with the pyramid's box of the own level on every path (intersections per call %s, operand ok=%s): a request on a level the pyramid lacks is not emptied" %
+                 (sorted(cnt), arg_ok), ir.loc(b))
